@@ -193,6 +193,46 @@ fn node_sweep(run: &Run, acc: &mut Acc, doc: &Value) {
             }
         }
     }
+    // (d) every path a query returns leads back to the node it was reported for: routes to a node through wildcards
+    // and filters over array elements and object members. The expected node of every result position comes from the
+    // reference model; a position whose reported path is not the normalized path of the expected node belongs to
+    // C03 (path rendering), a position whose path is right must carry exactly that node, and `reference` must
+    // resolve the path to it.
+    {
+        let dc = crate::checks::common::DocCtx::new(doc);
+        for q in ["$[?@]", "$.*[?@]", "$.*.*[?@]", "$[*]", "$.*.*", "$[?@!=1]", "$[?!@.zz]", "$.*[?!@.zz]", "$[*,*]", "$.*[?@==@]"] {
+            let ast = crate::model::parse::rfc_parse(q).expect("valid query").0;
+            let expected = match dc.model_ids(&ast, crate::model::eval::EDev::default()) {
+                Some(v) => v,
+                None => continue,
+            };
+            let res = match crate::imp::run_with_path(q, doc, &dc.am) {
+                crate::imp::ImplOut::Ok(v) => v,
+                _ => continue, // C01 / C08
+            };
+            if res.len() != expected.len() {
+                acc.bump("feed_back_result_length_differs_left_to_C01", 1);
+                continue;
+            }
+            for ((id, p), want) in res.iter().zip(expected.iter()) {
+                acc.evals += 1;
+                let wl = dc.am.loc(*want);
+                if *p != normpath(wl) {
+                    acc.bump("reported_paths_not_normalized_left_to_C03", 1);
+                    continue;
+                }
+                if id != want {
+                    let got = if *id == crate::imp::FABRICATED { "a value outside the document".to_string() } else { normpath(dc.am.loc(*id)) };
+                    acc.viol(
+                        format!("{} on {} reports the path {} together with the node at {}: feeding the path back reads or updates a different node than the one it was reported for", q, doc, p, got),
+                        json!({"kind": "ref", "class": "reported path does not lead back to the reported node", "doc": doc, "path": p, "query": q}),
+                    );
+                } else {
+                    acc.nontrivial += 1;
+                }
+            }
+        }
+    }
     // (c) locations that do not exist
     let mut bad: Vec<Loc> = vec![];
     for loc in &locs {
